@@ -327,3 +327,83 @@ theorem L4_sum_point_update (A : ℕ → ℝ) (n k : ℕ) (v : ℝ) (hk : k < n)
   ring
 
 end PyvcLemmas
+
+namespace PyvcLemmas
+
+/-! ## L1w: weighted fibre sum (group sums of `numpy.unique(.., return_counts=True)`) -/
+
+/-- Summing `count of group k` times `F k` over the groups is summing `F (group of i)` over the elements
+(tie correction of the W-test: `sum_g c_g (c_g^2 - 1) = sum_i (c_{g(i)}^2 - 1)`). -/
+theorem L1_fibre_weighted (g : ℕ → ℕ) (F : ℕ → ℝ) (n K : ℕ) (h : ∀ i < n, g i < K) :
+    SUM (fun k => (CNT (fun i => g i = k) n : ℝ) * F k) K = SUM (fun i => F (g i)) n := by
+  induction n with
+  | zero => simp [SUM, CNT]
+  | succ n ih =>
+    have hn : ∀ i < n, g i < K := fun i hi => h i (Nat.lt_succ_of_lt hi)
+    have hg : g n < K := h n (Nat.lt_succ_self n)
+    rw [L0_sum_unfold (fun i => F (g i)) n, ← ih hn]
+    unfold SUM
+    simp only [L0_count_unfold]
+    push_cast
+    simp only [add_mul, Finset.sum_add_distrib]
+    congr 1
+    rw [Finset.sum_eq_single (g n)]
+    · simp
+    · intro b _ hb
+      have : ¬ (g n = b) := fun e => hb e.symm
+      simp [this]
+    · intro hnot
+      exact absurd (Finset.mem_range.mpr hg) hnot
+
+/-- Midranks: with `lt i = #{j : a j < a i}` and `eq i = #{j : a j = a i}` the rank `lt i + (eq i + 1)/2` is strictly
+monotone in the value, hence two elements have equal ranks exactly when they have equal values. -/
+theorem L7_midrank_strict (a : ℕ → ℝ) (n i j : ℕ) (_hi : i < n) (hj : j < n) (hlt : a i < a j) :
+    ((CNT (fun t => a t < a i) n : ℝ) + ((CNT (fun t => a t = a i) n : ℝ) + 1) / 2)
+      < (CNT (fun t => a t < a j) n : ℝ) + ((CNT (fun t => a t = a j) n : ℝ) + 1) / 2 := by
+  have hsub : CNT (fun t => a t < a i) n + CNT (fun t => a t = a i) n ≤ CNT (fun t => a t < a j) n := by
+    unfold CNT
+    rw [← Finset.card_union_of_disjoint]
+    · apply Finset.card_le_card
+      intro t ht
+      simp only [Finset.mem_union, Finset.mem_filter] at ht ⊢
+      rcases ht with ⟨hr, h1⟩ | ⟨hr, h1⟩
+      · exact ⟨hr, lt_trans h1 hlt⟩
+      · exact ⟨hr, by rw [h1]; exact hlt⟩
+    · rw [Finset.disjoint_filter]
+      intro t _ h1 h2
+      exact absurd h2 (ne_of_lt h1)
+  have hpos : 1 ≤ CNT (fun t => a t = a j) n := by
+    unfold CNT
+    apply Finset.card_pos.mpr
+    exact ⟨j, by simp [Finset.mem_filter, hj]⟩
+  have h1 : ((CNT (fun t => a t < a i) n : ℝ) + (CNT (fun t => a t = a i) n : ℝ)) ≤ (CNT (fun t => a t < a j) n : ℝ) := by
+    exact_mod_cast hsub
+  have h2 : (1 : ℝ) ≤ (CNT (fun t => a t = a j) n : ℝ) := by exact_mod_cast hpos
+  have h3 : (0 : ℝ) ≤ (CNT (fun t => a t = a i) n : ℝ) := by positivity
+  linarith
+
+end PyvcLemmas
+
+namespace PyvcLemmas
+
+/-- converse of `L3b_count_none`: a zero count means no index satisfies the predicate -/
+theorem L3b_count_zero_imp (B : ℕ → Prop) [DecidablePred B] (n : ℕ) (h : CNT B n = 0) :
+    ∀ i < n, ¬ B i := by
+  unfold CNT at h
+  rw [Finset.card_eq_zero, Finset.filter_eq_empty_iff] at h
+  intro i hi
+  exact h (Finset.mem_range.mpr hi)
+
+end PyvcLemmas
+
+namespace PyvcLemmas
+
+/-- integer sums: `ISUM A n = sum_{i<n} A i` over the integers; its cast to the reals is the real sum of the casts -/
+def ISUM (A : ℕ → ℤ) (n : ℕ) : ℤ := ∑ i ∈ Finset.range n, A i
+
+theorem L0_isum_cast (A : ℕ → ℤ) (n : ℕ) : ((ISUM A n : ℤ) : ℝ) = SUM (fun i => (A i : ℝ)) n := by
+  unfold ISUM SUM
+  push_cast
+  rfl
+
+end PyvcLemmas
